@@ -6,6 +6,7 @@ import random
 import shutil
 import traceback
 
+import cluster
 import common
 import history as H
 
@@ -241,6 +242,31 @@ def focus_c06(proj, rng, steps):
         if j["state"] in ("pending", "running"):
             j["state"] = rng.choice(["failed", "cancelled", "completed"])
     proj.cluster.write(st)
+    if proj.backend != "local" and rng.random() < 0.5:
+        # a scheduler that has forgotten one tracked job while a later tracked job failed: each target must still be
+        # judged by ITS OWN job (one failed job is read wrongly if answers are paired with ids by position)
+        tr = cluster.read_json(proj.tracked_path()) or {}
+        st = proj.cluster.read()
+        names = sorted(tr)            # gwf queries in the order of the tracked file
+        if len(names) < 2:
+            for t in proj.targets:
+                if t["name"] not in tr:
+                    jid = str(st["next_id"]); st["next_id"] += 1
+                    tr[t["name"]] = jid
+                    st["jobs"][jid] = {"id": jid, "state": "completed", "deps": [], "kind": {"slurm": "afterok", "sge": "hold", "lsf": "done"}[proj.backend],
+                                       "name": t["name"], "script": "", "argv": [], "code": None, "acct": None, "order": len(st["jobs"])}
+            names = list(tr)
+        if len(names) >= 2:
+            order = list(tr)          # file order = insertion order
+            k = rng.randrange(len(order) - 1)
+            st["jobs"].pop(tr[order[k]], None)                           # forgotten by the scheduler
+            later = rng.choice(order[k + 1:])
+            if tr[later] in st["jobs"]:
+                st["jobs"][tr[later]]["state"] = "failed"
+            proj.cluster.write(st)
+            import json as _json
+            with open(proj.tracked_path(), "w") as f:
+                _json.dump(tr, f)
     pats = rand_patterns(rng, [t["name"] for t in proj.targets], allow_nomatch=False) if rng.random() < 0.3 else []
     steps.append(H.step_run(proj, pats))
     drain(proj, rng)
@@ -291,10 +317,16 @@ def focus_c01(proj, rng, steps):
         elif outs:
             os.remove(os.path.join(proj.dir, rng.choice(outs)))
         steps.append(H.step_status(proj))
-        if rng.random() < 0.6:
+        r = rng.random()
+        if r < 0.4:
             steps.append(H.step_run(proj, reject_nth=1))     # the scheduler refuses the first submission: nothing ran
             steps.append(H.step_status(proj))
             steps[-1]["unchanged_since"] = len(steps) - 3     # status before the refused run
+        elif r < 0.75:
+            steps.append(H.step_run(proj, reject_nth=2))     # first submission accepted, second refused (gwf stops there)
+            drain(proj, rng, ties=False)
+            steps.append(H.step_status(proj))
+            steps[-1]["accepted_completed"] = len(steps) - 2
         steps.append(H.step_run(proj))
         drain(proj, rng)
         steps.append(H.step_status(proj))
@@ -434,7 +466,23 @@ def unchanged_check(steps, idx):
     if a != b:
         diff = {n: (a.get(n), b.get(n)) for n in set(a) | set(b) if a.get(n) != b.get(n)}
         msg = "a run whose only submission was refused by the scheduler changed what status reports (before, after): %r" % diff
-        return [("C01", msg), ("C18", msg), ("C05", msg)]
+        return [("C01", msg), ("C18", msg), ("C05", msg), ("C02", msg)]
+    return []
+
+
+def accepted_completed_check(steps, idx, targets):
+    """a target whose submission the scheduler accepted, whose job then ran successfully and re-created its outputs,
+    is reported completed by the next status — whatever happened to LATER submissions of that run"""
+    import gen
+    s, run = steps[idx], steps[steps[idx]["accepted_completed"]]
+    if s["code"] != 0 or run["kind"] != "run":
+        return []
+    has_out = {t["name"]: bool(gen.flatten_shape(t["outputs"])) for t in targets}
+    rows = H.parse_status_table(s["out"])
+    wrong = sorted(x["name"] for x in run["subs"] if has_out.get(x["name"]) and rows.get(x["name"]) != "completed")
+    if wrong:
+        msg = "accepted by the scheduler, ran successfully, outputs re-created — yet not reported completed: %r (%r)" % (wrong, rows)
+        return [("C01", msg), ("C18", msg), ("C06", msg)]
     return []
 
 
@@ -482,6 +530,9 @@ def run_prop(chk, prop, foci, n_hist, rule, assumptions, nontrivial):
             if "unchanged_since" in s:
                 for (p, msg) in unchanged_check(r["steps"], idx):
                     disc.append((p, idx, "refused-run", msg, ""))
+            if "accepted_completed" in s:
+                for (p, msg) in accepted_completed_check(r["steps"], idx, r["info"]["targets"]):
+                    disc.append((p, idx, "accepted-then-refused", msg, ""))
         chk.count("history")
         chk.count("steps", len(r["steps"]))
         kinds = [s["kind"] for s in r["steps"]]
@@ -524,6 +575,8 @@ def replay_prop(chk, prop, data, rule):
             extra += c06_check(r["steps"], idx, r["info"]["targets"])
         if "unchanged_since" in s:
             extra += unchanged_check(r["steps"], idx)
+        if "accepted_completed" in s:
+            extra += accepted_completed_check(r["steps"], idx, r["info"]["targets"])
         for (p, msg) in extra:
             print("step %d: [%s] %s" % (idx, p, msg))
             if p == prop:
